@@ -54,7 +54,8 @@ class C11(Monitor):
         except Exception:
             return False
         g = self.geo.get(sid)
-        return g is not None and res <= 15 and h3.h3_to_parent(g, res) == key
+        # a region finer than the station's own cell cannot enclose it (the code's lookup fails and the key is ignored)
+        return g is not None and res <= h3.h3_get_resolution(g) and h3.h3_to_parent(g, res) == key
 
     def on_step(self, ctx):
         k, tk = ctx.k, ctx.t
